@@ -615,6 +615,19 @@ func TestVerif_C08(t *testing.T) {
 		})
 	}
 
+	// ---- filters the writer offers a constructor for but cannot encode: outside "accepted" ----
+	for _, f := range []Filter{NewBZIP2Filter(9), NewSZIPFilter(4, 8, 8, 8)} {
+		fp := NewFilterPipeline()
+		fp.AddFilter(f)
+		r.Case("")
+		if _, err := fp.Apply([]byte{1, 2, 3, 4, 5, 6, 7, 8}); err == nil {
+			// the day one of them starts encoding it has to join the grid above
+			r.Fail("grid-incomplete/"+f.Name()+"-now-encodes", map[string]any{"filter": f.Name()})
+		} else {
+			r.Add("constructors_whose_apply_always_errors", 1)
+		}
+	}
+
 	// ---- payload grid ----
 	type point struct{ pi, n, c int }
 	var pts []point
